@@ -21,6 +21,10 @@ ATOM_POOLS = [
 STR_POOLS = [["a", "b", "c"], ["x y", "z", "ww"]]
 KEY_POOLS = [{11: "a", 12: "b", 13: "c"}, {11: 1, 12: 2, 13: 3}, {11: "k 1", 12: 2, 13: None}, {11: (1, 2), 12: "x", 13: b"y"}]
 CLASS_KINDS = ["dataclass", "attrs", "namedtuple", "pydantic"]
+# class 3 of the model: a class whose code has positional arguments only - a subclass of collections.defaultdict.
+# Its two fields are (default_factory, items): atoms are bound to factories / to small dicts ({} = the default)
+FACTORIES = ["list", "int", "str"]
+POS_CLASS = 3
 
 
 def has_tag(t, tags):
@@ -45,6 +49,15 @@ class Gamma:
         self.multiline = rng.random() < 0.35 if multiline is None else multiline
         self.next_id = 100
         self.ids = {}          # id -> (kind, source text)
+        self.field = None      # position inside a C3(...) call that is being rendered (None = ordinary atoms)
+
+    def atext(self, a):
+        """source text of atom a at the current position"""
+        if self.field == 0:
+            return FACTORIES[a]
+        if self.field == 1:
+            return "{}" if a == 0 else "{'k': %r}" % (self.atoms[a],)
+        return repr(self.atoms[a])
 
     # ----- values
     def value(self, v):
@@ -58,6 +71,13 @@ class Gamma:
             return "(" + ", ".join(xs) + ("," if len(xs) == 1 else "") + ")"
         if t == "d":
             return "{" + ", ".join("%r: %s" % (self.keys[k], self.value(x)) for k, x in zip(v["k"], v["e"])) + "}"
+        if t == "c" and v["c"] == POS_CLASS:
+            xs = []
+            for j, x in enumerate(v["f"]):
+                self.field = j
+                xs.append(self.atext(x["v"]))
+            self.field = None
+            return "C3(%s)" % ", ".join(xs)
         if t == "c":
             return "C%d(%s)" % (v["c"], ", ".join("f%d=%s" % (j + 1, self.value(x)) for j, x in enumerate(v["f"])))
         raise ValueError(t)
@@ -69,7 +89,7 @@ class Gamma:
     def term(self, tm, depth=0):
         t = tm["t"]
         if t == "lit":
-            r = repr(self.atoms[tm["v"]])
+            r = self.atext(tm["v"])
             if tm["canon"]:
                 return r
             i = self._id("lit")
@@ -78,7 +98,7 @@ class Gamma:
             return s
         if t == "is":
             i = self._id("is")
-            s = "Is(%r if %d else 0)" % (self.atoms[tm["v"]], i)
+            s = "Is(%s if %d else 0)" % (self.atext(tm["v"]), i)
             self.ids[i] = ("is", s)
             return s
         if t == "fs":
@@ -113,6 +133,13 @@ class Gamma:
             if self.multiline and xs and depth == 0:
                 return "{" + "".join("\n        %s," % x for x in xs) + "\n    }"
             return "{" + ", ".join(xs) + "}"
+        if t == "ct" and tm["c"] == POS_CLASS:
+            xs = []
+            for j, x in enumerate(tm["p"]):
+                self.field = j
+                xs.append(self.term(x, depth + 1))
+            self.field = None
+            return "C3(%s)" % ", ".join(xs)
         if t == "ct":
             xs = [self.term(x, depth + 1) for x in tm["p"]]
             xs += ["f%d=%s" % (n, self.term(x, depth + 1)) for n, x in zip(tm["kn"], tm["ke"])]
@@ -132,6 +159,9 @@ class Gamma:
         else:
             out.append("from typing import Any\nfrom pydantic import BaseModel\n")
         for c, fs in enumerate(fields, 1):
+            if c == POS_CLASS:
+                out.append("\n\nimport collections\n\n\nclass C3(collections.defaultdict):\n    pass\n")
+                continue
             deco = {"dataclass": "@dataclass\n", "attrs": "@attrs.define\n", "namedtuple": "", "pydantic": ""}[k]
             base = {"dataclass": "", "attrs": "", "namedtuple": "(NamedTuple)", "pydantic": "(BaseModel)"}[k]
             out.append("\n\n%sclass C%d%s:\n" % (deco, c, base))
@@ -155,7 +185,8 @@ def _has_positional(tm):
 
 
 FIELDS = [[{"hasdef": False, "def": 0}, {"hasdef": True, "def": 0}],
-          [{"hasdef": False, "def": 0}, {"hasdef": True, "def": 1}, {"hasdef": True, "def": 0}]]
+          [{"hasdef": False, "def": 0}, {"hasdef": True, "def": 1}, {"hasdef": True, "def": 0}],
+          [{"hasdef": False, "def": 0}, {"hasdef": True, "def": 0}]]
 
 
 def render(tm, v, g: Gamma, extra_tests=""):
@@ -184,7 +215,24 @@ def alpha(node, g: Gamma):
     """AST node of the (new) snapshot argument -> (abstract term, {id: ast.dump of the carrying node})"""
     ids = {}
 
+    field = [None]           # position inside a C3(...) call (see Gamma.atext)
+
     def atom_of(n):
+        if field[0] == 0:
+            return FACTORIES.index(n.id) if isinstance(n, ast.Name) and n.id in FACTORIES else None
+        if field[0] == 1:
+            if not isinstance(n, ast.Dict):
+                return None
+            if not n.keys:
+                return 0
+            if len(n.keys) == 1 and isinstance(n.keys[0], ast.Constant) and n.keys[0].value == "k":
+                save, field[0] = field[0], None
+                try:
+                    a = atom_of(n.values[0])
+                finally:
+                    field[0] = save
+                return a if a else None
+            return None
         try:
             val = ast.literal_eval(n)
         except Exception:  # noqa
@@ -226,6 +274,9 @@ def alpha(node, g: Gamma):
             if a is None:
                 return {"t": "alien", "text": ast.unparse(n)}
             return {"t": "lit", "v": a, "canon": False, "id": i}
+        if field[0] is not None and not isinstance(n, ast.Call):
+            a = atom_of(n)
+            return {"t": "lit", "v": a, "canon": True} if a is not None else {"t": "alien", "text": ast.unparse(n)}
         if isinstance(n, ast.Call) and isinstance(n.func, ast.Name):
             f = n.func.id
             if f == "snapshot":
@@ -239,6 +290,13 @@ def alpha(node, g: Gamma):
                 i, body = _ifexp_id(n.args[0])
                 ids[i] = ast.dump(n)
                 return {"t": "ht", "val": val_of(body), "id": i}
+            if f == "C3" and not n.keywords and not any(isinstance(a, ast.Starred) for a in n.args):
+                ps = []
+                for j, a in enumerate(n.args):
+                    field[0] = j if j < 2 else None
+                    ps.append(go(a))
+                field[0] = None
+                return {"t": "ct", "c": 3, "p": ps, "kn": [], "ke": []}
             if f in ("C1", "C2") and not any(isinstance(a, ast.Starred) for a in n.args) \
                     and all(k.arg and k.arg[0] == "f" and k.arg[1:].isdigit() for k in n.keywords):
                 return {"t": "ct", "c": int(f[1:]), "p": [go(a) for a in n.args],
@@ -297,6 +355,9 @@ def veq(a, b):
         return len(a["e"]) == len(b["e"]) and all(veq(x, y) for x, y in zip(a["e"], b["e"]))
     if t == "d":
         return len(a["k"]) == len(b["k"]) and all(k in b["k"] and veq(x, b["e"][b["k"].index(k)]) for k, x in zip(a["k"], a["e"]))
+    if t == "c" and a["c"] == POS_CLASS:
+        # a defaultdict compares like a dict: only the items, not the default_factory
+        return b["c"] == POS_CLASS and veq(a["f"][1], b["f"][1])
     if t == "c":
         return a["c"] == b["c"] and all(veq(x, y) for x, y in zip(a["f"], b["f"]))
     return False
